@@ -82,19 +82,29 @@ def _items(variant):
     it["G3"] = b"\xff" * 3
     it["G7"] = b"\xff" * 7
     it["H2"] = b"\x00\x19"  # first octet of ID A, first octet of ID B: half an ID is not an ID
+    # single octets that look like the first octet of a registered ID (with and without version bits) directly in front
+    # of a packet, and an odd-length run of them: a scanner that strides over "no ID here" lands inside the packet
+    it["H1a"] = b"\x00"
+    it["H1b"] = b"\x19"
+    it["H1c"] = b"\xe0"
+    it["H1d"] = b"\xf9"
+    it["H3"] = b"\x00\x19\x00"
+    # the largest packets the length field allows (total 65536 / 65542 octets, length field 0xFFF9 / 0xFFFF)
+    it["A65536"] = _pkt(A, 65536, 7, variant)
+    it["A65542"] = _pkt(A, 65542, 8, variant)
     return it
 
 
 ITEMS_V = (_items(0), _items(1))  # variant 1: queue 2 of the two-queue mode (other sequence counts, other payload)
 ITEMS = ITEMS_V[0]
 PACKETS = ("A7", "A9", "B8", "A13")  # alphabet of the enumerated streams
-ALL_PACKETS = PACKETS + ("A17", "A265")
+ALL_PACKETS = PACKETS + ("A17", "A265", "A65536", "A65542")
 GARBAGE = ("G1", "G3", "G7")
 TAIL_SRC = "A9"
 
 
 def ids_raw():
-    return [(t << 12 | s << 11 | a) for (t, s, a) in (A, B)]
+    return [(t << 12 | s << 11 | a) for (t, s, a) in (A, B, C_ID)]
 
 
 _BUILD_CACHE = {}
@@ -139,16 +149,34 @@ def extra_stream_names():
     """streams outside the product alphabet (theme: value conjunctions the product never reaches)"""
     out = []
     # every stream of <= 3 items over {A7, B8, H2} that contains H2 (no two adjacent H2), tails T2 / T7 while < 3 items
-    alpha = ("A7", "B8", "H2")
-    for L in range(1, 4):
-        for body in itertools.product(alpha, repeat=L):
-            if "H2" not in body or any(body[i] == "H2" == body[i + 1] for i in range(L - 1)):
-                continue
-            for t in ((None, "T2", "T7") if L < 3 else (None,)):
-                names = list(body) + ([t] if t else [])
-                if any(n in PACKETS or n.startswith("T") for n in names):
-                    out.append(names)
+    for H in HALF_ID_GARBAGE:
+        alpha = ("A7", "B8", H)
+        for L in range(1, 4):
+            for body in itertools.product(alpha, repeat=L):
+                if H not in body or any(body[i] == H == body[i + 1] for i in range(L - 1)):
+                    continue
+                for t in ((None, "T2", "T7") if L < 3 else (None,)):
+                    names = list(body) + ([t] if t else [])
+                    if any(n in PACKETS or n.startswith("T") for n in names):
+                        out.append(names)
     return out
+
+
+HALF_ID_GARBAGE = ("H2", "H1a", "H1b", "H1c", "H1d", "H3")
+HUGE_STREAMS = (["A65536"], ["A65542"], ["A7", "A65542", "B8"], ["A65536", "T3"])
+# a third registered ID that never occurs in a stream, and the six orders in which a caller may list the three IDs
+C_ID = (1, 0, 0x2AA)
+ID_ORDERS = ((0, 1), (1, 0), (0, 1, 2), (0, 2, 1), (1, 0, 2), (1, 2, 0), (2, 0, 1), (2, 1, 0))
+
+
+def sparse_gaps(n, spans, tail_start):
+    """cut positions for the huge streams: every gap within 16 octets of the stream's ends and of every packet boundary,
+    and every 4093rd gap in between (a stated sub-alphabet of the cut positions; gap g = cut after octet g)"""
+    marks = [0, n - 1] + [x for (a, b) in spans for x in (a, b)] + ([tail_start] if tail_start is not None else [])
+    gs = set(range(0, n - 1, 4093))
+    for m in marks:
+        gs.update(g for g in range(m - 17, m + 16) if 0 <= g < n - 1)
+    return sorted(gs)
 
 
 LONG_STREAMS = (["A265"], ["A7", "A265"], ["A265", "B8"], ["G3", "A265"], ["A265", "T7"], ["H2", "A265", "T3"])
@@ -261,12 +289,12 @@ def run_schedule(sp, pids, stream, spans, tail_start, missing, sched, held=None)
     return None, calls, tuple(outcome)
 
 
-def schedules_for(n, mode, kcut):
+def schedules_for(n, mode, kcut, gaps=None):
     """mode 'all': every element of {0,1,2}^(n-1); mode 'cuts': every cut set with <= kcut cuts, each cut plain or +parse"""
     if mode == "all":
         yield from itertools.product((0, 1, 2), repeat=n - 1)
         return
-    gaps = range(n - 1)
+    gaps = range(n - 1) if gaps is None else gaps
     for k in range(0, kcut + 1):
         for cs in itertools.combinations(gaps, k):
             for acts in itertools.product((1, 2), repeat=k):
@@ -282,8 +310,10 @@ def _sp():
     return sp
 
 
-def _pids(sp):
-    return [sp.PacketId(sp.PacketType(t), bool(s), a) for (t, s, a) in (A, B)]
+def _pids(sp, order=0):
+    """the registered IDs as the caller lists them: ID_ORDERS[order] indexes (A, B, C_ID)"""
+    three = (A, B, C_ID)
+    return [sp.PacketId(sp.PacketType(t), bool(s), a) for (t, s, a) in (three[i] for i in ID_ORDERS[order])]
 
 
 def _feature(stream, spans, tail_start, detail, sched):
@@ -297,26 +327,34 @@ def _feature(stream, spans, tail_start, detail, sched):
     return "other"
 
 
-def explore_stream(rec, names, mode, kcut, keeper):
+def explore_stream(rec, names, mode, kcut, keeper, order=0):
     sp = _sp()
-    pids = _pids(sp)
+    pids = _pids(sp, order)
     stream, spans, tail_start, missing = build_stream(names)
     n = len(stream)
     outcomes = set()
     nsched = 0
-    for sched in schedules_for(n, mode, kcut):
+    gaps = sparse_gaps(n, spans, tail_start) if mode == "sparse" else None
+    for sched in schedules_for(n, mode, kcut, gaps):
         nsched += 1
         held = []
         v, calls, outcome = run_schedule(sp, pids, stream, spans, tail_start, missing, sched, held)
-        case = {"names": names, "sched": sched}
+        case = {"names": names, "sched": sched if n < 300 else [g for g, a in enumerate(sched) if a]}
         keeper.recheck(case)
         keeper.hold("parse_space_packets", held, _observe_held, case)
         rec.transitions += calls + sum(1 for a in sched if a) + 1
         if v:
             kind, detail = v
             feat = _feature(stream, spans, tail_start, detail, sched)
-            rec.violation(_mk_sig(kind, feat), {"names": names, "sched": "".join(map(str, sched))}, detail, None,
-                          repro=_repro(names, sched))
+            if order:
+                feat += "/ids-listed-in-another-order"
+            vcase = {"names": names, "order": order}
+            if n < 300:
+                vcase["sched"] = "".join(map(str, sched))
+            else:  # sparse encoding of a long schedule: [[gap, action], ...]
+                vcase["cuts"] = [[g, a] for g, a in enumerate(sched) if a]
+                detail = jsonable_short(detail)
+            rec.violation(_mk_sig(kind, feat), vcase, detail, None, repro=_repro(names, sched) if n < 300 else None)
         else:
             outcomes.add(outcome)
     rec.states += nsched
@@ -325,12 +363,27 @@ def explore_stream(rec, names, mode, kcut, keeper):
     rec.nontrivial += nsched if n > 1 else 0
     rec.ops += nsched
     rec.count("streams", 1)
-    rec.count("schedules_" + mode, nsched)
+    rec.count("schedules_" + ("cuts" if mode == "sparse" else mode), nsched)
+    if mode == "sparse":
+        rec.count("huge_stream_schedules", nsched)
+    if order:
+        rec.count("schedules_with_ids_listed_in_another_order", nsched)
     for o in outcomes:
         rec.outcome(repr(o))
     rec.extra.setdefault("distinct_outcomes_per_stream", []).append(len(outcomes))
     if len(rec.samples) < 2:
         rec.sample({"stream_items": names, "octets": stream.hex(), "mode": mode, "schedules": nsched, "example_schedule": "".join(map(str, sched))})
+
+
+def jsonable_short(x):
+    """detail of a violation on a huge stream: octet strings shortened"""
+    if isinstance(x, (bytes, bytearray)):
+        return {"len": len(x), "head": bytes(x[:16]).hex()}
+    if isinstance(x, dict):
+        return {k: jsonable_short(v) for k, v in x.items()}
+    if isinstance(x, (list, tuple)):
+        return [jsonable_short(v) for v in x]
+    return x
 
 
 def _repro(names, sched):
@@ -699,6 +752,16 @@ def shards(tier):
         n = len(build_stream(names)[0])
         kl = 1 if tier == "quick" else 2
         items.append({"kind": "sched", "names": list(names), "mode": "cuts", "kcut": kl, "cost": 4 * (2 * n) ** kl})
+    for names in HUGE_STREAMS:
+        items.append({"kind": "sched", "names": list(names), "mode": "sparse", "kcut": 1 if tier == "quick" else 2, "cost": 10 ** 6})
+    # the caller's ID list in every order (and with a third, unused ID): streams of <= 2 items, every schedule / cut set
+    for names in stream_names(2):
+        n = len(build_stream(names)[0])
+        for order in range(1, len(ID_ORDERS)):
+            if n <= 9:
+                items.append({"kind": "sched", "names": names, "mode": "all", "kcut": 0, "order": order, "cost": 3 ** (n - 1)})
+            else:
+                items.append({"kind": "sched", "names": names, "mode": "cuts", "kcut": 2, "order": order, "cost": n ** 2})
     for ia, na in enumerate(TWO_STREAMS):
         for nb in TWO_STREAMS[ia:]:
             la, lb = len(build_stream(na)[0]), len(build_stream(nb)[0])
@@ -740,7 +803,7 @@ def run_shard(item):
     keeper = Keeper(rec, PROPERTY, depth=2)
     for x in item["batch"]:
         if x["kind"] == "sched":
-            explore_stream(rec, x["names"], x["mode"], x["kcut"], keeper)
+            explore_stream(rec, x["names"], x["mode"], x["kcut"], keeper, x.get("order", 0))
         elif x["kind"] == "two":
             explore_two(rec, x["a"], x["b"], x["reg"], x["ka"], x["kb"], x["plain"], keeper)
         else:
@@ -769,11 +832,19 @@ def replay(case):
         return rec.result()
     sp = _sp()
     stream, spans, tail_start, missing = build_stream(names)
-    sched = tuple(int(c) for c in case["sched"])
-    v, calls, outcome = run_schedule(sp, _pids(sp), stream, spans, tail_start, missing, sched)
+    if "cuts" in case:
+        sl = [0] * (len(stream) - 1)
+        for g, a in case["cuts"]:
+            sl[g] = a
+        sched = tuple(sl)
+    else:
+        sched = tuple(int(c) for c in case["sched"])
+    order = case.get("order", 0)
+    v, calls, outcome = run_schedule(sp, _pids(sp, order), stream, spans, tail_start, missing, sched)
     if v:
         kind, detail = v
-        rec.violation(_mk_sig(kind, _feature(stream, spans, tail_start, detail, sched)), case, detail, None)
+        feat = _feature(stream, spans, tail_start, detail, sched) + ("/ids-listed-in-another-order" if order else "")
+        rec.violation(_mk_sig(kind, feat), case, detail if len(stream) < 300 else jsonable_short(detail), None)
     return rec.result()
 
 
